@@ -1,5 +1,5 @@
 /* textual inclusion: the code under test is the repository's text; we only add read-only accessors */
-#include "/repo/src/transmission/bidib_transmission_send.c"
+#include "src/transmission/bidib_transmission_send.c"
 #include "vx.h"
 size_t vx_send_buffer_index(void) { return buffer_index; }
 const uint8_t *vx_send_buffer(void) { return (const uint8_t *) buffer; }
